@@ -10,10 +10,14 @@ Open Scope Z_scope.
 (* For EVERY sequence of non-negative clock readings (frozen, jumping backwards, advancing
    by 1..3 ns, coarse, any length): one id per call; ids strictly increasing (so each is
    greater than all earlier ones, hence unique); every id is divisible by 4 and has the
-   client type; and (good_from/step_ok, Model/MsgId.v) the time encoded by each id -- under
-   the library's own decoding MessageID.Time -- is strictly later than that of the previous
-   id, is at most 3 ns behind the clock reading of its call and never exceeds
-   max(clock reading, previous encoded time + 13 ns).
+   client type; and (good_from/step_ok, Model/MsgId.v) the time encoded by each id -- the
+   nanosecond reading id_time_enc of what newMessageID writes -- is strictly later than that
+   of the previous id, is at most 3 ns behind the clock reading of its call and never exceeds
+   max(clock reading, previous encoded time + 13 ns).  The upper bound is one-sided on
+   purpose: under a frozen or backwards clock the generator runs ahead of the clock by ~10 ns
+   per call, without bound (inherent in "strictly increasing").
+   The model equals the Go code (int64) while readings stay below 2^31 s (year 2038: intPart<<32)
+   and the generator has not run that far ahead; the theorem itself is about unbounded Z.
    (Before fix 63dd45d22 this was refuted by the readings [1000; 1001]: same id twice.) *)
 Theorem C08_strict : forall clocks,
   Forall (fun c => 0 <= c) clocks ->
@@ -24,6 +28,16 @@ Theorem C08_strict : forall clocks,
   good_from 0 (combine clocks ids).
 Proof. exact gen_strict. Qed.
 Print Assumptions C08_strict.
+
+(* Under the SPECIFICATION's reading of an id (id / 2^32 seconds, which is what MessageID.Time
+   decodes since fix ad4102cfc) every generated id reads between 0 and 0.77 s BEFORE the
+   instant its low word encodes: the encoder writes nanoseconds where the protocol has 2^-32 s
+   units.  So "close to the clock reading" holds within 0.77 s + 3 ns under that reading. *)
+Theorem C08_spec_reading : forall clocks,
+  Forall (fun c => 0 <= c) clocks ->
+  Forall (fun id => 0 <= id_time_enc id - id_time_lib id < 770000000) (gen_run gen_init clocks).
+Proof. exact gen_spec_reading. Qed.
+Print Assumptions C08_spec_reading.
 
 (* Sequence numbers, for EVERY sequence of content (true) / service (false) requests taken
    in the order of the reqMux critical sections: the i-th request gets 2k+1 if it is a
